@@ -49,6 +49,12 @@ CLAIMED = {
                      "stable across batches) are verified for any dimension and batch; the orchestration in evaluate() is bounded only.",
                 note=TRUST + " run() is proved in two sequential region steps; evaluate()'s orchestration is a bounded run-time check.",
                 tech="deductive verification: object invariant (idle work lists) + loop invariants with a recursive sum spec (pyvc/z3); bounded run-time check for the orchestration"),
+    "C15": dict(cat="other", ref="5/C15",
+                text="Partial deductive decision: 12 of the benchmark functions have all three clauses (shape, bound, optimum) discharged "
+                     "from loop invariants and elementary-function axioms; the numerically delicate ones are bounded run-time checks only; "
+                     "four genuine defects are recorded as known findings (ModifiedEasom odd dimension, EqualityConstr x2, Synthetic5D/10D direction).",
+                note=TRUST + " Real arithmetic (A1), elementary-function axioms (A5); bounded parts are never counted as proved.",
+                tech="deductive verification (loop invariants, nlsat for polynomials) for 12 functions; bounded run-time contract evaluation for the rest"),
     "C16": dict(cat="proof", ref="5/C16",
                 text="For every point of the box and every objective count: DTLZ1 objectives sum to (1+g)/2, DTLZ2-4 objective vectors "
                      "have squared norm (1+g)^2 (telescoping loop invariant; each step needs sin^2+cos^2=1 at the SAME angle, which is "
